@@ -64,6 +64,14 @@ def IsRot {α : Type} [CommRing α] (R : Matrix (Fin 3) (Fin 3) α) : Prop := R 
 /-- an orthonormal right-handed frame: affine, with a rotation as its 3×3 block -/
 def IsFrame {α : Type} [CommRing α] (m : M44 α) : Prop := IsRot (rot3 m) ∧ IsAffine m
 
+/-! decidability (used only to EVALUATE statements at `Rat` when the check searches for a failing input) -/
+instance {α : Type} [CommRing α] [DecidableEq α] (R : Matrix (Fin 3) (Fin 3) α) : Decidable (IsRot R) := by
+  unfold IsRot; infer_instance
+instance {α : Type} [Zero α] [One α] [DecidableEq α] (m : M44 α) : Decidable (IsAffine m) := by
+  unfold IsAffine; infer_instance
+instance {α : Type} [CommRing α] [DecidableEq α] (m : M44 α) : Decidable (IsFrame m) := by
+  unfold IsFrame; infer_instance
+
 section Axis
 variable {α : Type} [CommRing α]
 /-- rotations about the coordinate axes by an angle with sine `s` and cosine `c`, row-vector convention
